@@ -9,10 +9,21 @@ import (
 // development switch (mutation trials against a tree where the findings are fixed): VERIF_C02_NOEXCL=1 disables the exclusions
 var noExclusions = os.Getenv("VERIF_C02_NOEXCL") != ""
 
+// genOpts: the generator options of the check (the exclusions of listed findings are the defaults of refjs.GenOpts).
+func genOpts(strict bool) refjs.GenOpts {
+	o := refjs.GenOpts{Strict: strict}
+	if noExclusions {
+		o.NamedFuncExprNonSimple = true
+		o.JumpOutOfFinally = false // (not patched in any tree)
+	}
+	return o
+}
+
 func init() {
 	if noExclusions {
-		refjs.AvoidVarOverPatternParam = false
-		refjs.AvoidArrowParenBody = false
+		refjs.Known.MulNegZero = false
+		refjs.Known.MappedArgsEval = false
+		refjs.Known.EvalVarFuncName = false
 	}
 }
 
@@ -26,27 +37,6 @@ func knownNeighbourhood(p *refjs.Node) string {
 	if noExclusions {
 		return ""
 	}
-	refjs.Walk(p, &refjs.Visitor{List: func(owner *refjs.Node, l *[]*refjs.Node, c refjs.Ctx) {
-		// C02-eval-func-lexical: a function declaration in sloppy eval code evaluated at global level (indirect eval, or a
-		// direct eval outside any function) does not see the let/const/class declarations of the same eval code
-		if owner.K == refjs.KEval && !c.Strict && c.FnDepth == 0 {
-			fn, lex := false, false
-			for _, s := range *l {
-				switch s.K {
-				case refjs.KFuncDecl:
-					fn = true
-				case refjs.KClassDecl:
-					lex = true
-				case refjs.KVar:
-					if s.S != "var" {
-						lex = true
-					}
-				}
-			}
-			if fn && lex {
-				id = "C02-eval-func-lexical"
-			}
-		}
-	}})
+	// C02-eval-func-lexical was fixed in /repo (51fa214); no structural exclusion is left at the moment.
 	return id
 }
